@@ -43,9 +43,10 @@ const (
 	c13BehStall         // the remote accepts the stream and never answers
 	c13BehRefuse        // the remote refuses the stream
 	c13BehClosedFirst   // the connection is already closed when Connected is delivered
+	c13BehDiscFirst     // ... and its Disconnected was even delivered before its Connected (out-of-order notifications)
 )
 
-var c13BehNames = []string{"answers", "stalls", "refuses-stream", "closed-before-Connected"}
+var c13BehNames = []string{"answers", "stalls", "refuses-stream", "closed-before-Connected", "Disconnected-before-Connected"}
 
 type c13Ev struct{ Kind, Slot, Beh int }
 
@@ -113,6 +114,9 @@ func (s c13LState) next(e c13Ev) c13LState {
 		if e.Beh == c13BehClosedFirst {
 			s.st[e.Slot] = 2
 		}
+		if e.Beh == c13BehDiscFirst {
+			s.st[e.Slot] = 3
+		}
 	case c13EvResp, c13EvPush:
 		s.msgs++
 	case c13EvClose:
@@ -155,10 +159,10 @@ func TestVerifC13Life(t *testing.T) {
 	defer r.Flush()
 	cf := c13LCfg{depth: 6, maxMsgs: 2, behs: []int{c13BehAnswer, c13BehStall, c13BehRefuse}}
 	if vrep.Thorough() {
-		cf = c13LCfg{depth: 7, maxMsgs: 2, behs: []int{c13BehAnswer, c13BehStall, c13BehRefuse, c13BehClosedFirst}, tick: true}
+		cf = c13LCfg{depth: 7, maxMsgs: 2, behs: []int{c13BehAnswer, c13BehStall, c13BehRefuse, c13BehClosedFirst, c13BehDiscFirst}, tick: true}
 	}
 	hs := c13Histories(cf)
-	const rt = 1
+	const rt = 0 // ed25519 remote (keys are the message product's business; this keeps a history cheap)
 	R := w.R[rt]
 	var bn []string
 	for _, b := range cf.behs {
@@ -193,7 +197,13 @@ func TestVerifC13Life(t *testing.T) {
 			}
 			// what host.Connect leaves behind for the dialled peer
 			f.ps.AddAddrs(R.ID, []ma.Multiaddr{ma.StringCast("/ip4/8.8.4.4/tcp/5000")}, peerstore.TempAddrTTL)
-			f.net.add(f.net.newConn(w.O.ID, c13LAddrPub, ma.StringCast("/ip4/7.7.7.1/tcp/1"), false, nil))
+			// O is connected too, and the service tracks that connection (its remote refuses the identify stream)
+			oc := f.net.newConn(w.O.ID, c13LAddrPub, ma.StringCast("/ip4/7.7.7.1/tcp/1"), false, nil)
+			f.net.add(oc)
+			f.net.notifyConnected(oc)
+			synctest.Wait()
+			f.drain()
+			f.evs = nil
 			hist := make([]string, len(h))
 			for k, e := range h {
 				hist[k] = e.String()
@@ -204,6 +214,7 @@ func TestVerifC13Life(t *testing.T) {
 			oBefore := c13SnapStable(f, w)
 			var conns [2]*c13Conn
 			var waits [2]<-chan struct{}
+			var discFirst [2]bool
 			open := 0 // connections to R in the table
 			var last *c13LastMsg
 			tag := 0
@@ -253,6 +264,13 @@ func TestVerifC13Life(t *testing.T) {
 						f.net.remove(c)
 						f.net.notifyConnected(c)
 						waits[e.Slot] = f.ids.IdentifyWait(c)
+					case c13BehDiscFirst:
+						f.net.add(c)
+						f.net.remove(c)
+						f.net.notifyDisconnected(c)
+						discFirst[e.Slot] = true
+						f.net.notifyConnected(c)
+						waits[e.Slot] = f.ids.IdentifyWait(c)
 					}
 				case c13EvResp, c13EvPush:
 					tag++
@@ -290,7 +308,7 @@ func TestVerifC13Life(t *testing.T) {
 			// complete the history: every closed connection gets its Disconnected, stalled identifies time out
 			for i, c := range conns {
 				if c != nil && c.IsClosed() {
-					delivered := false
+					delivered := discFirst[i]
 					for _, e := range h {
 						if e.Kind == c13EvDisc && e.Slot == i {
 							delivered = true
